@@ -146,7 +146,7 @@ def gen_case(rng):
     case = {'engine': 'linesim', 'stations': st,
             'source': {'ct': rng.choice(CTS), 'parts': rng.choice((None, None, 1, 2, 5, 12, 25))},
             'sink': {'ct': rng.choice((0, 0, 0.25, 0.5, 1, 2))},
-            'horizon': rng.choice((1, 2.5, 5, 10, 20, 50)),
+            'horizon': rng.choice((0, 1, 2.5, 5, 10, 20, 50)),
             'tiebreak': core.gen_tiebreak(rng), 'id_offset': rng.choice((0, 0, 5, 1000))}
     if case['source']['ct'] == 0 and case['source']['parts'] is None and not _wellposed_zero_source(case):
         case['source']['parts'] = rng.choice((3, 12, 25))
